@@ -87,6 +87,7 @@ func (p *Parser) parseTransaction() *ast.Transaction {
 	}
 	tx.Range.Start = toASTPosition(p.current.Pos)
 
+	dateEnd := p.current.End.Offset
 	date := p.parseDate()
 	if date == nil {
 		p.skipToNextLine()
@@ -94,7 +95,9 @@ func (p *Parser) parseTransaction() *ast.Transaction {
 	}
 	tx.Date = *date
 
-	if p.current.Type == TokenEquals {
+	// A secondary date is attached to the primary one ("2024-01-15=2024-01-20"); an
+	// '=' after a blank begins the description ("2024-01-15 = 2 apples").
+	if p.current.Type == TokenEquals && p.current.Pos.Offset == dateEnd {
 		p.advance()
 		date2 := p.parseDate()
 		if date2 != nil {
